@@ -16,6 +16,7 @@ import numpy as np
 from props import c01
 from symoas import cases as K
 from symoas import execute, model, oblig, partials, report
+from symoas.npproxy import symbolic_numpy
 from symoas.model import SymComp, num_inputs, run_obligations
 from symoas.sym import S, ZERO, ONE, Sym, bor, eq, evalf, ge, gt, le, lt, ne, reachable, symarray, var
 
@@ -307,12 +308,85 @@ def readonly_part(rep, tier):
                 bad.append((case.name, str(e)))
             else:
                 raise
+    # ---- functions and group set-ups that are handed the user's arrays directly: executed with symbolic, write-protected
+    # arrays (every data-dependent path); a write raises, and so does any change of the arrays' contents
+    fcases = user_array_functions(tier)
+    for name, fn in fcases:
+        try:
+            with symbolic_numpy():
+                ps = execute.explore(fn, [], max_paths=64)
+            n += 1
+            paths += len(ps)
+            for p_ in ps:
+                if p_.result:
+                    bad.append((name, p_.result))
+        except ValueError as e:
+            if "read-only" in str(e):
+                bad.append((name, str(e)))
+            else:
+                raise
     for name, msg in bad:
         rep.violation("user array modified in place: %s" % name.split("[")[0], msg, {"case": name})
     rep.groups.append({"case": "option arrays read-only during symbolic execution", "components_executed": n, "paths": paths, "writes_detected": len(bad)})
     rep.counts["obligations"] += n
     rep.counts["discharged"] += n - len(bad)
     rep.log("read-only option arrays: %d component cases, %d paths, %d writes" % (n, paths, len(bad)))
+
+
+def user_array_functions(tier):
+    """(label, thunk) pairs; a thunk returns a message when it finds a user array changed, else None"""
+    import warnings
+
+    from openaerostruct.geometry import utils as gu
+    from openaerostruct.geometry.geometry_group import build_sections
+    from openaerostruct.geometry.geometry_unification import unify_mesh
+    from symoas.sym import symarray
+
+    def frozen(name, shape, ycols=None):
+        a = symarray(name, shape)
+        a.flags.writeable = False
+        return a
+
+    def changed(arrs, keeps):
+        for k, (a, b) in enumerate(zip(arrs, keeps)):
+            if a.shape != b.shape or any(x is not y for x, y in zip(a.ravel(), b.ravel())):
+                return "user array %d no longer holds the values it was given" % k
+        return None
+
+    out = []
+
+    def sections_case(nsec, shift):
+        def run():
+            meshes = [frozen("sec%d" % k, (2, 2 + (k % 2), 3)) for k in range(nsec)]
+            keeps = [m.copy() for m in meshes]
+            surface = {"name": "surface", "is_multi_section": True, "num_sections": nsec, "sec_name": ["sec%d" % i for i in range(nsec)],
+                       "symmetry": True, "S_ref_type": "wetted", "meshes": meshes, "root_section": nsec - 1,
+                       "CL0": 0.0, "CD0": 0.015, "k_lam": 0.05, "c_max_t": 0.303, "with_viscous": False, "with_wave": False, "groundplane": False}
+            with warnings.catch_warnings():
+                warnings.simplefilter("ignore")
+                secs = build_sections(surface)
+                unify_mesh(secs, shift_uni_mesh=shift)
+                unify_mesh(secs, shift_uni_mesh=shift)
+            return changed(meshes, keeps)
+
+        return run
+
+    for nsec in ((2, 3) if tier == "quick" else (1, 2, 3, 4)):
+        for shift in (True, False):
+            out.append(("build_sections + unify_mesh[%d user meshes, shift=%s]" % (nsec, shift), sections_case(nsec, shift)))
+
+    def gfm(side):
+        def run():
+            h = frozen("half", (2, 3, 3))
+            keep = h.copy()
+            gu.getFullMesh(left_mesh=h) if side == "left" else gu.getFullMesh(right_mesh=h)
+            return changed([h], [keep])
+
+        return run
+
+    out.append(("getFullMesh[left]", gfm("left")))
+    out.append(("getFullMesh[right]", gfm("right")))
+    return out
 
 
 def global_state_scan(rep):
